@@ -247,7 +247,7 @@ def run(ctx):
                 (head[4].const_bytes() == b"\x00", "filler must be 0"),
                 (T.contains(calls[0].value[0], lambda x: T.is_param(x, 2)) and T.contains(calls[1].value[0], lambda x: T.is_param(x, 3)),
                  "parameter definitions must precede column definitions"),
-                (all(T.is_const_int(calls[i].value[2], 0) and T.is_const_int(calls[i].value[3], 1) for i in (0, 1)),
+                (all(len(calls[i].value) > 3 and T.is_const_int(calls[i].value[2], 0) and T.is_const_int(calls[i].value[3], 1) for i in (0, 1)),
                  "definition blocks must use (field_list=false, only_eof_on_nonempty=true)"),
                 (all(c.callee == wcd.path for c in calls), "definition blocks must go through the column-definition writer"),
             ]
@@ -258,11 +258,30 @@ def run(ctx):
                     break
         ctx.ob("C09.prepare-ok", ok, "COM_STMT_PREPARE_OK: " + why, fn=wpo.path, construct="layout", where=wpo.where(p.blocks[-1]),
                sample={"rule": "prepare-ok", "sequence": desc})
+    # what the shim declares is what is announced: the reply entry point hands its own `params` / `columns` (and id) to the
+    # PREPARE_OK writer — as the iterator it made of them, not a shortened (`take`, `skip`, `filter`) or substituted one
+    rp = prog.find(r"^resultset::StatementMetaWriter::<'a, W>::reply$")
+    if ctx.floor("C09.prepare-ok", "StatementMetaWriter::reply", len(rp), 1):
+        rb = rp[0]
+        ctx.fn(rb)
+        sites = list(rb.calls_to(r"^writers::write_prepare_ok$"))
+        if ctx.ob("C09.prepare-ok", len(sites) == 1, "reply() calls the PREPARE_OK writer %d times (need once)" % len(sites), fn=rb.path, construct="writer-call", nontrivial=False):
+            bb, t = sites[0]
+            def _declared(x, param_no):
+                x = T.peel(x)
+                while isinstance(x, tuple) and x[0] == "call" and re.search(r"IntoIterator>?::into_iter$|iter::Iterator::by_ref$", x[1]) and len(x[2]) == 1:
+                    x = T.peel(x[2][0])
+                return T.is_param(x, param_no)
+            sig = rb.raw["sig_in"]
+            for argi, param_no, what in ((0, 2, "statement id"), (1, 3, "parameter definitions"), (2, 4, "column definitions")):
+                a = rb.arg_origin(bb, argi)
+                ok = _declared(a, param_no) if argi else T.is_param(T.peel(a), param_no)
+                ctx.ob("C09.prepare-ok", ok, "reply() hands %s to the PREPARE_OK writer as its %s (need the caller's argument itself)" % (term_str(a)[:100], what),
+                       fn=rb.path, construct="declared-is-announced", callee=what, where=rb.where(bb),
+                       sample={"rule": "prepare-ok/flow", "what": what, "value": term_str(a)[:60]})
     # callers: RowWriter start / reply / field list
     callers = [(b.path, bb) for b, bb, t in prog.callers_of(r"^writers::(write_column_definitions|column_definitions|write_prepare_ok)$") if "::tests::" not in b.path]
     ctx.floor("C09.coldef-layout", "call sites of the metadata writers", len(callers), 5)
 
     # every outbound clause of this property presupposes a faithful framing layer (one transport write site that sends the
     # whole pending packet, in order, with a correct header): C04's framing rules are evaluated here as well
-    import rules._wire as W_
-    W_.run_outbound(ctx)
